@@ -1,171 +1,3 @@
-import QuiverModel.Core.Prelude
-import QuiverModel.Core.Sys.Basic
-/-
-qm_c04 — driver for M-Sys (C04, C03). Requests (one S-expression line each):
-
-  (init <n> <req> (<script> …))      start `Sys.init n prog req`;        → snapshot
-       script = (<act> …); act = (send r tag seq) | (spawn fn (r …)) | (select (<src> …)) | fail
-       src = (proc r) | (recv any) | (recv tag k) | (timeout ms)
-  (mode current|replace-answers|mark-active-on-empty|wake-only-on-empty-answer)   which `Rules` the step uses (default current) → ok
-  (env (<vis> …))                     `Choice.env`   (a `*` entry = everything)            → snapshot
-  (worker i vis fuel (ordQ…) (ordE…)) `Choice.worker` (`*` for vis = everything)           → snapshot
-  (tick ms)                                                                                → snapshot
-  (ghost)                             sent / appended / dropped / spawned / reported / learned
-
-The snapshot is canonical: sets and maps are printed sorted.  It calls `sysStep` / `sysStepReplace`
-of Core/Sys/Basic.lean — the definitions the theorems are about.
--/
-open QM QM.Sys
-
-namespace C04Driver
-
-def joinWith (sep : String) (xs : List String) : String := sep.intercalate xs
-
-def showNats (xs : List Nat) : String := "[" ++ joinWith "," (xs.map toString) ++ "]"
-def sortNats (xs : List Nat) : List Nat := xs.mergeSort (fun a b => a ≤ b)
-
-def showVal (v : Val) : String := joinWith "," (v.map toString)
-
-def showRes : Res → String
-  | .ok v => "ok:" ++ showVal v
-  | .err => "err"
-
-def showResults (rs : Results) : String :=
-  let sorted := rs.mergeSort (fun a b => a.1 ≤ b.1)
-  "{" ++ joinWith ";" (sorted.map (fun tr => toString tr.1 ++ "=" ++ (match tr.2 with
-    | none => "none"
-    | some r => showRes r))) ++ "}"
-
-def showMsg (m : Msg) : String := "(" ++ toString m.tag ++ "," ++ toString m.seq ++ ")"
-
-def showCmd : Cmd → String
-  | .misc => "misc"
-  | .start p => s!"start:{p}"
-  | .resume p _ => s!"resume:{p}"
-  | .spawn p _ _ => s!"spawn:{p}"
-  | .notifySpawn c p => s!"nspawn:{c}:{p}"
-  | .deliver t m => s!"deliver:{t}:{showMsg m}"
-  | .queryAwait a ts => s!"query:{a}:{showNats ts}"
-  | .updateAwait a rs => s!"update:{a}:{showResults rs}"
-  | .getResult r p => s!"getres:{r}:{p}"
-
-def showEvt : Evt → String
-  | .spawn c _ _ _ => s!"spawn:{c}"
-  | .deliver t m => s!"deliver:{t}:{showMsg m}"
-  | .await a ts => s!"await:{a}:{showNats ts}"
-  | .procResults a rs => s!"results:{a}:{showResults rs}"
-  | .resultResp r res => s!"resp:{r}:{showRes res}"
-
-def procClass (w : WorkerSt) (p : Pid) (x : Proc) : String :=
-  if p ∈ w.queue then "run"
-  else if p ∈ w.spawning then "pspawn"
-  else if p ∈ w.selecting then "pselect"
-  else match x.result with
-    | some (.ok _) => if x.persistent then "sleep" else "done"
-    | some .err => "failed"
-    | none => "limbo"
-
-def showProc (w : WorkerSt) (p : Pid) : String :=
-  match w.procs p with
-  | none => s!"P{p}:missing"
-  | some x =>
-    let aw := (x.awaiting.mergeSort (fun a b => a.1 ≤ b.1)).map (fun kv =>
-      toString kv.1 ++ (match kv.2 with | some v => "=" ++ showVal v | none => "=none"))
-    let res := match x.result with | none => "none" | some r => showRes r
-    s!"P{p}:{procClass w p x} mb=[{joinWith "" (x.mailbox.map showMsg)}] aw=[{joinWith ";" aw}] af={showNats (sortNats x.awaitFailed)} sel={if x.selInit then 1 else 0} res={res}"
-
-def showWorker (s : Sys) (i : Wid) : String :=
-  let w := s.wk i
-  let procs := (sortNats w.pids).map (showProc w)
-  s!"W{i} q={showNats w.queue} sp={showNats (sortNats w.spawning)} se={showNats (sortNats w.selecting)} " ++
-  s!"C=[{joinWith " " ((s.cmdQ i).map showCmd)}] E=[{joinWith " " ((s.evtQ i).map showEvt)}] " ++
-  joinWith " " procs
-
-def snapshot (s : Sys) : String :=
-  s!"now={s.now} fault={if s.fault then 1 else 0} next={s.env.nextPid} | " ++
-  joinWith " | " ((List.range s.n).map (showWorker s))
-
-def showPairs (xs : List (Pid × Msg)) : String :=
-  joinWith " " (xs.map (fun rm => s!"{rm.2.src}>{rm.1}:{showMsg rm.2}"))
-
-def ghost (s : Sys) : String :=
-  s!"sent=[{showPairs s.sent}] appended=[{showPairs s.appended}] dropped=[{showPairs s.dropped}] " ++
-  s!"spawned=[{joinWith " " (s.spawned.map (fun cp => s!"{cp.1}>{cp.2}"))}] " ++
-  s!"notified=[{joinWith " " (s.spawnNotified.map (fun x => s!"{x.1}>{x.2.1}:{if x.2.2 then 1 else 0}"))}] " ++
-  s!"reported=[{joinWith " " (s.reported.map (fun cp => s!"{cp.1}<{cp.2}"))}] " ++
-  s!"learned=[{joinWith " " (s.learned.map (fun cp => s!"{cp.1}<{cp.2}"))}] " ++
-  s!"answers=[{joinWith " " (s.env.results.map (fun rr => s!"{rr.1}:{showRes rr.2}"))}]"
-
-/-! parsing -/
-
-def natList (x : Sx) : Option (List Nat) := do
-  let xs ← x.asList
-  xs.mapM Sx.asNat
-
-def parseSrc : Sx → Option Src
-  | .list [.atom "proc", r] => do some (.proc (← r.asNat))
-  | .list [.atom "recv", .atom "any"] => some (.recv .any)
-  | .list [.atom "recv", .atom "tag", k] => do some (.recv (.tag (← k.asNat)))
-  | .list [.atom "timeout", ms] => do some (.timeout (← ms.asNat))
-  | _ => none
-
-def parseAct : Sx → Option Act
-  | .list [.atom "send", r, t, q] => do some (.send (← r.asNat) (← t.asNat) (← q.asNat))
-  | .list [.atom "spawn", f, pass] => do some (.spawn (← f.asNat) (← natList pass))
-  | .list [.atom "select", .list srcs] => do some (.select (← srcs.mapM parseSrc))
-  | .atom "fail" => some .fail
-  | _ => none
-
-def parseScript (x : Sx) : Option Script := do
-  let xs ← x.asList
-  xs.mapM parseAct
-
-/-- `*` = everything visible -/
-def visNat : Sx → Option Nat
-  | .atom "*" => some 1000000000
-  | x => x.asNat
-
-structure St where
-  sys : Option Sys := none
-  rules : Rules := Rules.current
-
-def stepOf (st : St) (s : Sys) (c : Choice) : St × String :=
-  let s' := sysStepWith st.rules s c
-  ({ st with sys := some s' }, snapshot s')
-
-def step (st : St) (req : List Sx) : St × String :=
-  match req with
-  | [.list [.atom "init", n, r, .list scripts]] =>
-    match n.asNat, r.asNat, scripts.mapM parseScript with
-    | some n, some r, some prog =>
-      let s := Sys.init n prog r
-      ({ st with sys := some s }, snapshot s)
-    | _, _, _ => (st, "bad-request")
-  | [.list [.atom "mode", .atom "current"]] => ({ st with rules := Rules.current }, "ok")
-  | [.list [.atom "mode", .atom "replace-answers"]] => ({ st with rules := Rules.replaceAnswers }, "ok")
-  | [.list [.atom "mode", .atom "mark-active-on-empty"]] => ({ st with rules := Rules.markActiveOnEmpty }, "ok")
-  | [.list [.atom "mode", .atom "wake-only-on-empty-answer"]] => ({ st with rules := Rules.wakeOnlyOnEmptyAnswer }, "ok")
-  | [.list [.atom "ghost"]] =>
-    match st.sys with
-    | some s => (st, ghost s)
-    | none => (st, "no-system")
-  | [.list [.atom "env", .list vis]] =>
-    match st.sys, vis.mapM visNat with
-    | some s, some vis => stepOf st s (.env vis)
-    | none, _ => (st, "no-system")
-    | _, _ => (st, "bad-request")
-  | [.list [.atom "worker", i, vis, fuel, oq, oe]] =>
-    match st.sys, i.asNat, visNat vis, fuel.asNat, natList oq, natList oe with
-    | some s, some i, some vis, some fuel, some oq, some oe => stepOf st s (.worker i vis fuel oq oe)
-    | none, _, _, _, _, _ => (st, "no-system")
-    | _, _, _, _, _, _ => (st, "bad-request")
-  | [.list [.atom "tick", ms]] =>
-    match st.sys, ms.asNat with
-    | some s, some ms => stepOf st s (.tick ms)
-    | none, _ => (st, "no-system")
-    | _, _ => (st, "bad-request")
-  | _ => (st, "bad-request")
-
-end C04Driver
-
-def main : IO Unit := sxLoop C04Driver.step {}
+import QuiverModel.Driver.SysCommon
+/- qm_c04 — driver for M-Sys (protocol in Driver/SysCommon.lean). -/
+def main : IO Unit := QM.sxLoop C04Driver.step {}
